@@ -162,7 +162,7 @@ theorem wd_frozen (d : Nat) (ins : List WdIn) (h : ∀ i ∈ ins, i.enable = fal
 /-- The `wait` input of the reset timer in every cycle of a run. -/
 def wdWaits (d : Nat) (s : WdSt) : List WdIn → List Bool
   | [] => []
-  | i :: is => (i.enable && s.execute && i.resetF) :: wdWaits d (wdNext d s i) is
+  | i :: is => wdWait s i :: wdWaits d (wdNext d s i) is
 
 theorem wd_rcount (d : Nat) (ins : List WdIn) (s : WdSt) (k : Nat) (hk : s.rcount = d - k) :
     ((watchdog d).runFrom s ins).rcount = d - WaitTimer.streakFrom k (wdWaits d s ins) := by
@@ -170,7 +170,7 @@ theorem wd_rcount (d : Nat) (ins : List WdIn) (s : WdSt) (k : Nat) (hk : s.rcoun
   | nil => simpa [wdWaits, WaitTimer.streakFrom] using hk
   | cons i is ih =>
     rw [wd_runFrom_cons]
-    have := ih (wdNext d s i) (WaitTimer.streakStep k (i.enable && s.execute && i.resetF))
+    have := ih (wdNext d s i) (WaitTimer.streakStep k (wdWait s i))
       (by simp only [wdNext]; exact waittimer_step d s.rcount k _ hk)
     simpa [wdWaits, WaitTimer.streakFrom] using this
 
